@@ -1033,7 +1033,7 @@ def callable_hook(rt, fn):
         if meth in LOGGER_NOOPS:
             return lambda interp, f, args, kwargs: None
         if meth == "isEnabledFor":
-            return lambda interp, f, args, kwargs: False
+            return lambda interp, f, args, kwargs: interp._debug_logging()
     return rt.call_hooks.get(type(fn).__name__)
 
 
